@@ -4,6 +4,7 @@ from __future__ import annotations
 
 from typing import TYPE_CHECKING
 
+from pest.grammar import Group
 from pest.grammar import Identifier
 from pest.grammar.rule import SILENT
 from pest.grammar.rule import BuiltInRule
@@ -32,5 +33,8 @@ def inline_silent_rules(expr: Expression, rules: Mapping[str, Rule]) -> Expressi
         # A reference to an undefined rule is left alone.
         rule = rules.get(expr.value)
         if rule and rule.modifier & SILENT:
+            if expr.tag:
+                # Keep the tag of `#tag = silent_rule`.
+                return Group(rule.expression, tag=expr.tag)
             return rule.expression
     return expr
